@@ -14,7 +14,7 @@ import recipes as R
 from props.c13 import monic, distribute
 from props.c03 import idx_for, split_idx, judge, MIN
 
-THEOREMS = ["Adc.checkEquiv_sound", "Adc.elim_sound", "Adc.alpha_sound"]
+THEOREMS = ["Adc.checkEquiv_sound", "Adc.elim_sound", "Adc.alpha_sound", "Adc.isr_matrix_selfadjoint", "Adc.isr_orthonormal_series"]
 
 
 def n_fact(space):
